@@ -38,6 +38,53 @@ CLAIMS = {
                 technique='symbolic execution of AST-extracted regions + bit-level SMT lemmas over the de-cythonised matcher'),
 }
 
+B_NOTE = ('Bounded stand-in (engine B): contracts taken from the property statement are attached to the real functions and driven over enumerated / '
+          'seeded domains with stated bounds; labelled bounded in the evidence, never counted as proved. ')
+
+CLAIMS.update({
+    'C10': dict(level='proof', engine='cyx+pysym',
+                text='The two codec sources are de-cythonised on every run and executed on proxies: field-by-field round trip and published byte '
+                     'layout for all attribute values on enumerated shapes; inductive lemmas for the 12-bit pair stream (period 2) and the 3-bit '
+                     'order stream (period 8 + tails + flush); section offsets in the declared C types vs the published formula; role slices of '
+                     'reaction unpack/pack_len for all counts 0..255; float16 exhaustively over all finite half patterns. The 4200 published packs '
+                     'and corpus round trips through the real wrappers are the bounded part.',
+                note='Trusted: the syntactic Cython translation and its C runtime (DESIGN 1.4), CPython, z3/cvc5, zlib. Traversal agreement of '
+                     'encoder and decoder for arbitrary graphs is shape-bounded (enumerated shapes), composition of the lemmas is by hand.',
+                technique='symbolic execution of the de-cythonised codec (whole function + inductive region lemmas) with per-path SMT obligations'),
+    'C04': dict(level='other', engine='bounded', text=B_NOTE + 'Exhaustive grid of the property (13 elements x charge x radical x all multisets of <= 4 bonds, '
+                '1.6M real molecules) against an independent re-derivation from the raw element tables, a textbook lower-bound model and RDKit '
+                '(one-directional), totals against own sums and RDKit on the corpus.',
+                note='Trusted: oracles/o04_valence.py (re-derivation written from the table docstring), RDKit valence model for the organic subset. '
+                     'The table-compilation lemma and calc_implicit first-match proof of DESIGN are not built yet: no deductive obligations.',
+                technique='exhaustive bounded contract checking against an independent re-derivation (bounded stand-in)'),
+    'C05': dict(level='exploration', engine='bounded', text=B_NOTE + 'kekule/thiele/enumerate_kekule post-conditions on 164 ring templates x substitution '
+                'patterns in aromatic and Kekule spelling, corpus, repository test files, under renumbering.',
+                note='Trusted: RDKit (one-directional H/charge comparison), oracles/o05_*. Whole-algorithm relations of a backtracking search: no '
+                     'deductive obligation is within reach (DESIGN 5).', technique='bounded contract checking over a ring-system generator'),
+    'C06': dict(level='exploration', engine='bounded', text=B_NOTE + 'sssr post-conditions (count, simple cycles, GF(2) independence, minimum total size, '
+                'numbering-free size multiset) and ring marks on every connected graph <= 6 (quick) / <= 7 atoms and 8 atoms <= 3 rings (thorough), '
+                'random assemblies, macrocycles, corpus; the two recorded gaps detected on the graph by an exact oracle.',
+                note='Trusted: networkx minimum_cycle_basis, oracles/o06_gaps.py (exact theta-subgraph oracle, cross-checked every run). Minimality of a '
+                     'heuristic for all graphs is not decidable by contracts.', technique='exhaustive small-graph enumeration with cycle-space oracles'),
+    'C11': dict(level='exploration', engine='bounded', text=B_NOTE + 'write -> read record equality for five writer/reader pairs, corrupted multi-record files '
+                'at every line and column, index access, repository test files, RDKit-written molblocks.',
+                note='Trusted: RDKit molblock writer/reader, plane-geometry oracle. 15 reader crash families are recorded as known findings.',
+                technique='bounded round-trip and fault-injection contract checking'),
+    'C15': dict(level='exploration', engine='bounded', text=B_NOTE + 'role-order independence, SMILES round trip of roles, exact dynamic labels against an '
+                'independent diff of the mapped sides, ground-truth centres from recorded edits, consistent renumbering, token-table injectivity.',
+                note='Trusted: oracles/o15_diff.py; C01 gap filter for canonical-string comparisons.', technique='bounded relational contract checking'),
+    'C17': dict(level='exploration', engine='bounded', text=B_NOTE + 'path set == independent simple-path enumerator, fragment multiplicities, count-capped '
+                'hashing, iterated neighbourhood hashing re-implemented independently, folded bit windows, invariance under renumbering and insertion order.',
+                note='Trusted: oracles/o17_ref.py, oracles/paths.py.', technique='bounded contract checking against independent enumerators'),
+    'C19': dict(level='other', engine='bounded', text=B_NOTE + '35 observables per molecule compared across 5 interpreter processes with different '
+                'PYTHONHASHSEED, first vs cached evaluation, original vs copies made before/after caching.',
+                note='Trusted: subprocess isolation. The hash-input typing (engine H) of DESIGN is not built yet.',
+                technique='bounded differential execution across processes and hash seeds'),
+    'C20': dict(level='exploration', engine='bounded', text=B_NOTE + 'both bridge directions against RDKit per atom/bond and by canonical SMILES, inverse '
+                'relations, renumbering, Kekule and aromatic forms.', note='Trusted: RDKit (external oracle, assumed contract on a dependency).',
+                technique='bounded contract checking against RDKit'),
+})
+
 NOT_BUILT = 'check under construction in this session - not claimed until its command exists and passes on the unchanged tree'
 
 NOT_APPLICABLE = {}   # pid -> reason (a property that contracts genuinely cannot decide)
